@@ -89,6 +89,14 @@ func typeName(t types.Type) string {
 		return "map[" + typeName(t.Key()) + "]" + typeName(t.Elem())
 	case *types.Alias:
 		return typeName(types.Unalias(t))
+	case *types.Basic:
+		// byte and uint8 (rune and int32) are the same type: one component for both spellings
+		switch t.Kind() {
+		case types.Uint8:
+			return "byte"
+		case types.Int32:
+			return "int32"
+		}
 	}
 	s := types.TypeString(t, func(p *types.Package) string { return p.Name() })
 	return s
